@@ -82,7 +82,7 @@ def fetchAux {α : Type} (buf flight : Nat) (closed : Bool) (todo : List (Frame 
       if f.ok then
         if f.plain.isEmpty then fetchAux (buf - f.size) flight closed r net
         else (⟨f.plain, buf - f.size, flight, r, closed⟩, net, none)
-      else (⟨[], buf - f.size, flight, r, true⟩, net, some (.closed closed))
+      else (⟨[], 0, 0, [], true⟩, net, some (.closed closed))
     else if closed then (⟨[], buf, flight, f :: r, closed⟩, net, some (.closed true))
     else match net with
       | [] => (⟨[], buf, flight, f :: r, closed⟩, [], some .block)
